@@ -78,7 +78,8 @@ def queries(tier):
     qs.append(tq("pfor", {"CODEC": 2}, to=2400))
     if not q:
         qs.append(tq("dict", {"CODEC": 6}, mem=28, extra=["--no-array-field-sensitivity"], to=2400))
-        for p, m in [(p, m) for p in range(4) for m in range(3)]:
+        # two of the twelve precision x mode pairs: one cell takes ~18 minutes and ~25 GB on its own (30 M SAT variables)
+        for p, m in [(3, 0), (1, 1)]:
             qs.append(tq("float-p%d-m%d" % (p, m), {"CODEC": 8, "FPREC": p, "FMODE": m}, uf=FL, weight=8, mem=40, to=3600,
                          extra=["--no-array-field-sensitivity"]))
     return qs
